@@ -69,6 +69,7 @@ class EngineState:
         self.other: list[str] = []
         self.facts: list[tuple] = []  # template facts (hole folded, column upper-wrapped)
         self.last_exists = None
+        self.last_rows = None  # rows of the last catalog listing whose select list is a single name column
 
 
 def _is_db_hole(v) -> bool:
@@ -96,7 +97,14 @@ class ConnectHooks(Hooks):
         I.effect("engine", method, args, kwargs, site)
         if method in ("fetchone", "fetchall"):
             ans = st.last_exists
+            rows, st.last_rows = st.last_rows, None
             st.last_exists = None
+            if rows is not None:
+                # the listing names a column: the rows are the names as the engine stores them
+                from .values import Lst, Tup
+                if method == "fetchall":
+                    return Lst([Tup([r]) for r in rows])
+                return Tup([rows[0]]) if rows else Const(None)
             if ans is None:
                 return Sym(f"fetch@{I.siteid(site)}")
             return Sym(f"row@{I.siteid(site)}", truthy=True) if ans else (Const(None) if method == "fetchone" else Const(()))
@@ -252,6 +260,19 @@ class ConnectHooks(Hooks):
         if "SCHEMA_NAME" in cols_seen:
             # a schema of the same name may exist in another database of the instance
             st.facts.append(("scoped to the connection's database (catalog_name conjunct)", "schema existence check", "CATALOG_NAME" in cols_seen, site))
+        # a listing of names (select schema_name / catalog_name … where <catalog conjunct>): the stored names, for code that
+        # decides existence on the Python side.  Stored as the engine stores them: built-ins lower-case, what connect itself
+        # created upper-case (the folded argument).
+        sel = [t for t in stmt[1:next((i for i, t in enumerate(stmt) if t.is_kw("FROM")), len(stmt))] if t.kind == "word"]
+        if len(sel) == 1 and sel[0].up in ("SCHEMA_NAME", "CATALOG_NAME") and "SCHEMA_NAME" not in cols_seen:
+            rows = []
+            if sel[0].up == "SCHEMA_NAME" and st.db:
+                rows = [Const("main"), Const("information_schema")] if st.pt.schema != "builtin" or True else []
+                if st.schema and st.pt.schema == "user":
+                    rows.append(Sym("upper(schema)", origin=("upper", Sym("schema", truthy=True, typ="str")), typ="str", truthy=True))
+            elif sel[0].up == "CATALOG_NAME" and st.db:
+                rows = [Sym("upper(database)", origin=("upper", Sym("database", truthy=True, typ="str")), typ="str", truthy=True)]
+            st.last_rows = rows
         return ans
 
 
